@@ -6,7 +6,14 @@ set -u
 VERIF="$(cd "$(dirname "$0")/.." && pwd)"
 id="$1"; shift
 feat=()
-if [ "${1:-}" = "--features" ]; then feat=(--features "$2"); shift 2; fi
+demo_env=()
+while true; do
+  case "${1:-}" in
+    --features) feat=(--features "$2"); shift 2 ;;
+    --env) demo_env+=("$2"); shift 2 ;;   # KEY=VALUE for building/running the demonstration only
+    *) break ;;
+  esac
+done
 D="$VERIF/seeded/$id"
 S=$(mktemp -d /tmp/verif-seeded-XXXXXX)
 trap 'rm -rf "$S"' EXIT
@@ -19,10 +26,10 @@ echo "--- repository tests on the changed tree"
 ( cd "$S/mut" && CARGO_TARGET_DIR="$S/target" cargo test --workspace --no-fail-fast --offline 2>&1 | grep -E "^test result|FAILED|failed" | head -8 ) | tee "$S/tests.txt"
 tests_ok=$(grep -c "FAILED\|failed;" "$S/tests.txt" | head -1); passed=$(grep -o "[0-9]* passed" "$S/tests.txt" | awk '{s+=$1} END{print s}')
 echo "--- demonstration with the change"
-( cd "$S/mut" && CARGO_TARGET_DIR="$S/target" timeout 1200 cargo run --offline --release "${feat[@]}" --example demo_mutant > "$S/demo_mut.txt" 2>&1 ); rc_mut=$?
+( cd "$S/mut" && env "${demo_env[@]}" CARGO_TARGET_DIR="$S/target-demo" timeout 1200 cargo run --offline --release "${feat[@]}" --example demo_mutant > "$S/demo_mut.txt" 2>&1 ); rc_mut=$?
 tail -3 "$S/demo_mut.txt" | cut -c1-300
 echo "--- demonstration without the change"
-( cd "$S/clean" && CARGO_TARGET_DIR="$S/target" timeout 1200 cargo run --offline --release "${feat[@]}" --example demo_mutant > "$S/demo_clean.txt" 2>&1 ); rc_clean=$?
+( cd "$S/clean" && env "${demo_env[@]}" CARGO_TARGET_DIR="$S/target-clean" timeout 1200 cargo run --offline --release "${feat[@]}" --example demo_mutant > "$S/demo_clean.txt" 2>&1 ); rc_clean=$?
 tail -2 "$S/demo_clean.txt" | cut -c1-300
 echo "demo exit with change: $rc_mut, without: $rc_clean; tests passed: $passed"
 echo "--- checks on the changed tree"
